@@ -349,10 +349,12 @@ Section Data.
 
   (* the state part: the row is the device's, in the same session, the uplink counter has not moved back; G is
      the number of the next downlink counter, not reduced modulo 2^16 *)
+  Variable Bnd : N.                     (* what the unreduced counter can reach: its start plus the number of handlers *)
+  Hypothesis HB : Bnd <= 65536.
   Definition dinv (st : dstate) (ps : list prog) (acc : list out) : Prop :=
     fb_down st /\
     exists r' G phs, ds_row st = Some r' /\ same_session r0 r' /\ d_fup r0 <= d_fup r' /\
-      d_fdn r' = G mod 65536 /\ d_fdn r0 <= G /\ G + N.of_nat (npre phs) <= 65536 /\
+      d_fdn r' = G mod 65536 /\ d_fdn r0 <= G /\ G + N.of_nat (npre phs) <= Bnd /\
       Forall2 ph phs ps /\
       NoDup (counters acc ++ holds phs) /\ Forall (fun x => d_fdn r0 <= x < G) (counters acc ++ holds phs).
 
@@ -382,13 +384,16 @@ Section Data.
   Lemma npre_pos i phs : nth_error phs i = Some Pre -> (1 <= npre phs)%nat.
   Proof. intros H. pose proof (npre_upd i phs Pre Post H) as X. cbn [pre1] in X. lia. Qed.
 
-  Lemma dinv_bound st ps acc : dinv st ps acc ->
-    (exists r', ds_row st = Some r' /\ same_session r0 r' /\ d_fup r0 <= d_fup r') /\
-    NoDup (counters acc) /\ Forall (fun x => d_fdn r0 <= x) (counters acc).
+  (* what holds when the run stops, wherever it stops *)
+  Definition dpost (st : dstate) (outs : list out) : Prop :=
+    (exists r' G, fb_down st /\ ds_row st = Some r' /\ same_session r0 r' /\ d_fup r0 <= d_fup r' /\
+       d_fdn r' = G mod 65536 /\ d_fdn r0 <= G /\ G <= Bnd /\ Forall (fun x => d_fdn r0 <= x < G) (counters outs)) /\
+    NoDup (counters outs).
+  Lemma dinv_bound st ps acc : dinv st ps acc -> dpost st acc.
   Proof.
-    intros (_ & r' & G & phs & Hr & Hs & Hu & _ & _ & _ & _ & Hnd & Hall). split; [eauto|].
-    split; [eapply NoDup_app_l; exact Hnd|]. apply Forall_app in Hall. destruct Hall as [Ha _].
-    eapply Forall_impl; [|exact Ha]. cbn beta. intros x Hx. lia.
+    intros (Hfb & r' & G & phs & Hr & Hs & Hu & Hd & HG0 & HG & _ & Hnd & Hall). split; [|eapply NoDup_app_l; exact Hnd].
+    exists r', G. split; [exact Hfb|]. split; [exact Hr|]. split; [exact Hs|]. split; [exact Hu|]. split; [exact Hd|]. split; [exact HG0|]. split; [lia|].
+    apply Forall_app in Hall. tauto.
   Qed.
   Lemma dinv_harmless st ps acc : dinv st ps acc -> Forall harmless_halt ps.
   Proof.
@@ -396,13 +401,11 @@ Section Data.
   Qed.
 
   Theorem interleaveN_data : forall fuel sched st ps acc, dinv st ps acc ->
-    (exists r', ds_row (fst (interleaveN apps sched fuel st ps acc)) = Some r' /\ same_session r0 r' /\ d_fup r0 <= d_fup r') /\
-    NoDup (counters (snd (interleaveN apps sched fuel st ps acc))) /\
-    Forall (fun x => d_fdn r0 <= x) (counters (snd (interleaveN apps sched fuel st ps acc))).
+    dpost (fst (interleaveN apps sched fuel st ps acc)) (snd (interleaveN apps sched fuel st ps acc)).
   Proof.
     induction fuel as [|fuel IH]; intros sched st ps acc Hinv; cbn [interleaveN]; [cbn [fst snd]; now apply (dinv_bound st ps)|].
     destruct (choose (hd 0%nat sched) ps) as [i|].
-    2:{ cbn [fst snd]. unfold counters. rewrite downs_app, (final_outs_quiet ps (dinv_harmless _ _ _ Hinv)), app_nil_r. now apply (dinv_bound st ps). }
+    2:{ cbn [fst snd]. pose proof (dinv_bound st ps acc Hinv) as P. unfold dpost, counters in *. rewrite downs_app, (final_outs_quiet ps (dinv_harmless _ _ _ Hinv)), app_nil_r. exact P. }
     destruct (nth_error ps i) as [[o0 | o k]|] eqn:Ei; try (cbn [fst snd]; now apply (dinv_bound st ps)).
     destruct Hinv as (Hfb & r' & G & phs & Hr & Hs & Hu & Hd & HG0 & HG & HF2 & Hnd & Hall).
     destruct (Forall2_nth ph i phs ps (Do o k) HF2 Ei) as (s & Hsi & Hph).
@@ -508,6 +511,30 @@ End Data.
 
 (* any number of uplink handlers of one device, any frames (copies, consecutive or unrelated counters), every
    schedule and run length, while fewer than 2^16 downlink counters of the session have been used *)
+Lemma all_pre_phs {A} (ups : list A) : npre (map (fun _ => Pre) ups) = length ups /\ holds (map (fun _ => Pre) ups) = [].
+Proof. unfold npre, list_sum. induction ups as [|u t [I1 I2]]; cbn; [auto | rewrite I1; auto]. Qed.
+
+(* the same with what holds at the end spelled out: the stored counter has advanced by at most the number of
+   handlers, and every counter that left lies between the old and the new stored counter *)
+Theorem concurrent_uplinks_post E D apps :
+  forall (ups : list (frame * rxpacket * nat * N)), Forall (fun x => fcnt (fst (fst (fst x))) < 65535) ups ->
+  forall st r, ds_row st = Some r -> fb_down st -> d_fdn r < 65536 -> d_fdn r + N.of_nat (length ups) <= 65536 ->
+  forall sched fuel,
+    let res := interleaveN apps sched fuel st
+                 (map (fun x => uplink_prog E D (fst (fst (fst x))) (snd (fst (fst x))) (snd (fst x)) (snd x)) ups) [] in
+    dpost r (d_fdn r + N.of_nat (length ups)) (fst res) (snd res).
+Proof.
+  intros ups Hall st r Hr Hfb H16 Hroom sched fuel. apply (interleaveN_data E D apps r (d_fdn r + N.of_nat (length ups)) Hroom).
+  split; [exact Hfb|]. exists r, (d_fdn r), (map (fun _ => Pre) ups).
+  destruct (all_pre_phs ups) as [Hn Hh].
+  split; [exact Hr|]. split; [apply same_session_refl|]. split; [lia|].
+  split; [symmetry; now apply N.mod_small|]. split; [lia|]. split; [rewrite Hn; lia|].
+  split; [|rewrite Hh; cbn; split; constructor].
+  clear Hn Hh Hroom. induction ups as [|u t IHt]; cbn; constructor; inversion Hall; subst; [now apply uplink_prog_ph | now apply IHt].
+Qed.
+
+(* any number of uplink handlers of one device, any frames (copies, consecutive or unrelated counters), every
+   schedule and run length, while fewer than 2^16 downlink counters of the session have been used *)
 Theorem concurrent_uplinks_counters E D apps :
   forall (ups : list (frame * rxpacket * nat * N)), Forall (fun x => fcnt (fst (fst (fst x))) < 65535) ups ->
   forall st r, ds_row st = Some r -> fb_down st -> d_fdn r < 65536 -> d_fdn r + N.of_nat (length ups) <= 65536 ->
@@ -517,15 +544,9 @@ Theorem concurrent_uplinks_counters E D apps :
     (exists r', ds_row (fst res) = Some r' /\ same_session r r' /\ d_fup r <= d_fup r') /\
     NoDup (counters (snd res)) /\ Forall (fun x => d_fdn r <= x) (counters (snd res)).
 Proof.
-  intros ups Hall st r Hr Hfb H16 Hroom sched fuel. apply (interleaveN_data E D apps r).
-  split; [exact Hfb|]. exists r, (d_fdn r), (map (fun _ => Pre) ups).
-  assert (Hn : npre (map (fun _ => Pre) ups) = length ups).
-  { clear. unfold npre, list_sum. induction ups as [|u t IHt]; cbn; [reflexivity | now rewrite IHt]. }
-  assert (Hh : holds (map (fun _ => Pre) ups) = []) by (clear; induction ups as [|u t IHt]; cbn; auto).
-  split; [exact Hr|]. split; [apply same_session_refl|]. split; [lia|].
-  split; [symmetry; now apply N.mod_small|]. split; [lia|]. split; [rewrite Hn; exact Hroom|].
-  split; [|rewrite Hh; cbn; split; constructor].
-  clear Hn Hh Hroom. induction ups as [|u t IHt]; cbn; constructor; inversion Hall; subst; [now apply uplink_prog_ph | now apply IHt].
+  intros ups Hall st r Hr Hfb H16 Hroom sched fuel.
+  destruct (concurrent_uplinks_post E D apps ups Hall st r Hr Hfb H16 Hroom sched fuel) as [(r' & G & _ & R & S & U & _ & _ & _ & F) ND].
+  split; [eauto|]. split; [exact ND|]. eapply Forall_impl; [|exact F]. cbn beta. intros x Hx. lia.
 Qed.
 
 (* ---------- two handlers: the function the forced-schedule correspondence runs (Steps.interleave) ---------- *)
@@ -604,3 +625,72 @@ Example delivery_premises_hold :
   map (fun d => ref_on_downlink aes_enc w_nwk w_app 19088743 (dl_raw d)) (downs (snd (prun [9] 30 w_stq (w_prog 5 100 1000) [])))
   = [Some (ConfirmedDataDown, true, 3, Some 7, [1; 2; 3])].
 Proof. vm_compute. repeat split; auto. repeat constructor; discriminate. Qed.
+
+(* ====================================================================================================== *)
+(* C03 / C07, histories AND interleavings together: a history whose events are batches of uplinks handled at the same
+   time (each batch under its own schedule, cut after any number of operations) and submissions of messages. *)
+Lemma NoDup_app_disjoint {A} (l1 l2 : list A) : NoDup l1 -> NoDup l2 -> (forall x, In x l1 -> ~ In x l2) -> NoDup (l1 ++ l2).
+Proof.
+  induction l1 as [|a t IH]; cbn; intros H1 H2 Hd; [exact H2|]. inversion H1 as [|? ? Hn Ht]; subst. constructor.
+  - rewrite in_app_iff. intros [Hi|Hi]; [exact (Hn Hi) | exact (Hd a (or_introl eq_refl) Hi)].
+  - apply IH; [assumption | assumption | intros x Hx; apply Hd; now right].
+Qed.
+
+Section Batches.
+  Variable E D : list N -> list N -> list N.
+  Variable apps : list N.
+
+  Inductive bevent :=
+  | BUps (ups : list (frame * rxpacket * nat * N)) (sched : list nat) (fuel : nat)   (* uplinks handled at the same time *)
+  | BSub (m : dmsg).                                                                   (* a message is queued *)
+  Definition handlers (ev : bevent) : nat := match ev with BUps ups _ _ => length ups | BSub _ => 0%nat end.
+  Definition bev_ok (ev : bevent) : Prop :=
+    match ev with BUps ups _ _ => Forall (fun x => fcnt (fst (fst (fst x))) < 65535) ups | BSub _ => True end.
+  Definition bstep (st : dstate) (ev : bevent) : dstate * list out :=
+    match ev with
+    | BUps ups sched fuel =>
+      interleaveN apps sched fuel st (map (fun x => uplink_prog E D (fst (fst (fst x))) (snd (fst (fst x))) (snd (fst x)) (snd x)) ups) []
+    | BSub m => (fst (l_create_downstream st m), [])
+    end.
+  Fixpoint brun (st : dstate) (evs : list bevent) : dstate * list out :=
+    match evs with
+    | [] => (st, [])
+    | ev :: t => let r1 := bstep st ev in let r2 := brun (fst r1) t in (fst r2, snd r1 ++ snd r2)
+    end.
+  Definition total (evs : list bevent) : nat := list_sum (map handlers evs).
+
+  Theorem batches_counters : forall evs st r G,
+    ds_row st = Some r -> fb_down st -> d_fdn r = G mod 65536 -> G + N.of_nat (total evs) <= 65536 -> Forall bev_ok evs ->
+    (exists r', ds_row (fst (brun st evs)) = Some r' /\ same_session r r' /\ d_fup r <= d_fup r') /\
+    NoDup (counters (snd (brun st evs))) /\
+    Forall (fun x => G <= x < G + N.of_nat (total evs)) (counters (snd (brun st evs))).
+  Proof.
+    induction evs as [|ev t IH]; intros st r G Hr Hfb Hd Hroom Hok; cbn [brun].
+    { cbn [fst snd]. split; [exists r; split; [exact Hr|]; split; [apply same_session_refl | lia]|]. split; constructor. }
+    inversion Hok as [|? ? Hev Ht]; subst.
+    assert (Htot : total (ev :: t) = (handlers ev + total t)%nat) by reflexivity.
+    destruct ev as [ups sched fuel | m]; cbn [bstep handlers] in *.
+    - destruct ups as [|u ups'].
+      + (* nobody to run *)
+        assert (Hnil : interleaveN apps sched fuel st [] [] = (st, [])) by (destruct fuel; [reflexivity|]; cbn [interleaveN]; unfold choose; destruct (hd 0%nat sched); reflexivity).
+        cbn [map]. rewrite Hnil. cbn [fst snd app]. rewrite Htot. cbn [length Nat.add]. rewrite Htot in Hroom. cbn [length Nat.add] in Hroom. apply (IH st r G); auto.
+      + set (ups := u :: ups') in *.
+        assert (HG : G < 65536) by (rewrite Htot in Hroom; unfold ups in Hroom; cbn [length] in Hroom; lia).
+        assert (Hd' : d_fdn r = G) by (rewrite Hd; now apply N.mod_small).
+        assert (H16 : d_fdn r < 65536) by lia.
+        assert (Hroom1 : d_fdn r + N.of_nat (length ups) <= 65536) by (rewrite Htot in Hroom; lia).
+        pose proof (concurrent_uplinks_post E D apps ups Hev st r Hr Hfb H16 Hroom1 sched fuel) as P. cbv zeta in P.
+        set (res1 := interleaveN apps sched fuel st (map (fun x => uplink_prog E D (fst (fst (fst x))) (snd (fst (fst x))) (snd (fst x)) (snd x)) ups) []) in *.
+        destruct P as [(r1 & G1 & F1 & R1 & S1 & U1 & D1 & L1 & B1 & C1) ND1].
+        assert (Hroom2 : G1 + N.of_nat (total t) <= 65536) by (rewrite Htot in Hroom; lia).
+        destruct (IH (fst res1) r1 G1 R1 F1 D1 Hroom2 Ht) as ((r2 & R2 & S2 & U2) & ND2 & C2).
+        cbn [fst snd]. split; [exists r2; split; [exact R2|]; split; [eapply same_session_trans; eassumption | lia]|].
+        rewrite counters_app. split.
+        * apply NoDup_app_disjoint; [exact ND1 | exact ND2|]. intros x H1 H2. rewrite Forall_forall in C1, C2.
+          specialize (C1 x H1). specialize (C2 x H2). lia.
+        * rewrite Htot. apply Forall_app. split; (eapply Forall_impl; [|eassumption]); cbn beta; intros x Hx; lia.
+    - (* a submission: neither the row nor the type of the buffer entry changes *)
+      destruct (lsub_props st m) as (L1 & _ & L3). cbn [fst snd app]. rewrite Htot. cbn [Nat.add].
+      rewrite Htot in Hroom. cbn [Nat.add] in Hroom. apply (IH (fst (l_create_downstream st m)) r G); auto. now rewrite L1.
+  Qed.
+End Batches.
